@@ -156,7 +156,7 @@ func (c *Cluster) startNode(n *Node, dir string) {
 				standardprocess.WithEncryptor(n.Pop.Encryptor),
 				standardprocess.WithPeers(n.Peers),
 				standardprocess.WithID(n.ID),
-				standardprocess.WithStores([]e2wtypes.Store{n.Pop.Store}),
+				standardprocess.WithStores([]e2wtypes.Store{&yieldStore{inner: n.Pop.Store, s: c.S, inst: func() *Instance { return n.Inst }}}),
 				standardprocess.WithGenerationPassphrase([]byte("pass")),
 				standardprocess.WithGenerationTimeout(c.Timeout),
 			)
